@@ -32,6 +32,7 @@ GRAPHS = {
     "inner_ring_mixed_dims": (["sysenv", "A", "B", "C"], [("sysenv", "A", "te"), ("A", "B", "t"), ("B", "C", "te"), ("C", "A", "er"), ("C", "sysenv", "t")], []),
     "scalar_flow_after_dimensional": (["sysenv", "A", "B"], [("sysenv", "A", "te"), ("A", "B", ""), ("B", "sysenv", "e"), ("B", "sysenv", "")], []),
     "names_contain_each_other": (["sysenv", "A", "AB"], [("sysenv", "A", "te"), ("A", "AB", "te"), ("AB", "sysenv", "te"), ("sysenv", "AB", "t")], []),
+    "inner_three_dims": (["sysenv", "A", "B"], [("sysenv", "A", "te"), ("A", "B", "ter"), ("B", "A", "ret"), ("B", "sysenv", "t")], []),
     "stocks_on_two_processes": (["sysenv", "A", "B"], [("sysenv", "A", "te"), ("A", "B", "et"), ("B", "sysenv", "t")], [("A", "te"), ("B", "tr"), (None, "t")]),
 }
 
